@@ -217,6 +217,13 @@ class _ReusablePoolExecutor(ProcessPoolExecutor):
                     )
                     is_reused = True
                     executor._resize(max_workers)
+                    if executor._flags.broken:
+                        # The executor broke while it was being resized (e.g.
+                        # a worker died while waiting for the running jobs):
+                        # build a new instance.
+                        return cls.get_reusable_executor(
+                            max_workers=max_workers, **kwargs
+                        )
 
         return executor, is_reused
 
@@ -239,6 +246,12 @@ class _ReusablePoolExecutor(ProcessPoolExecutor):
                 return
 
             self._wait_job_completion()
+
+            # The executor cannot be resized if it was flagged as broken or
+            # shutdown while waiting for the jobs: do not spawn new workers
+            # that nobody would ever stop.
+            if self._flags.broken or self._flags.shutdown:
+                return
 
             # Some process might have returned due to timeout so check how many
             # children are still alive. Use the _process_management_lock to
